@@ -11,6 +11,7 @@ import (
 	"net/http"
 	"path"
 	"strconv"
+	"strings"
 	"sync"
 	"time"
 
@@ -398,7 +399,9 @@ func handleStream(svr interface{}, serviceName string, desc *grpc.StreamDesc, st
 			}
 			statProto := st.Proto()
 			tr.Code = statProto.Code
-			tr.Message = statProto.Message
+			// a string field must be valid UTF-8 or the trailer cannot be
+			// marshaled at all; sanitize like the standard transport does
+			tr.Message = strings.ToValidUTF8(statProto.Message, "\uFFFD")
 			tr.Details = statProto.Details
 		}
 
